@@ -83,6 +83,11 @@ def run(chk, tier):
     ns, nw = flags.run(chk, P, "C08", effects=E)
     chk.floor("R-FLAGS", "entry points", ns, 1)
     restrict_rules(chk, P, E)
+    chk.rule("R-ORPHAN", "in the functions that dismantle tree objects, hwloc_free_unlinked_object(X) is reached only after each of X's four child lists, when non-empty, was handed on "
+             "(passed to a call or copied): explored per list with the list head seeded non-NULL; a NULL test alone consumes nothing")
+    import orphan
+    nor = orphan.run(chk, P, ["topology.c"])
+    chk.floor("R-ORPHAN", "release sites x child lists", nor, 12)
     chk.decided += ["inconsistent flags -> EINVAL (all words); every EINVAL/EPERM exit precedes any write to the topology",
                     "post-restrict fix-ups present on every success path, each cache invalidation under its own flag",
                     "NUMA nodes/PUs removed only with REMOVE_CPULESS/REMOVE_MEMLESS; I/O and Misc dropped only without ADAPT; cpusets and nodesets never mixed"]
